@@ -387,7 +387,9 @@ def run(ctx):
         bus_forwarding(ctx, rng, 40 if quick else 400)
         hostile_names_through_bus(ctx)
         first_use_poisoning(ctx, rng)
+        history_independence(ctx, rng)
         scaling_probe(ctx)
+        step_scaling_probe(ctx)
 
     # F. memory, sampled
     if si == 0:
@@ -519,6 +521,188 @@ def scaling_probe(ctx):
             ctx.report('superlinear-work', 'decoding %r: %d bytes take %.3f s of processor time, %d bytes take %.3f s - a factor '
                        'of %.1f for 4 times the length' % (sig, sizes[0], times[0], sizes[1], times[1], ratio),
                        {'sig': sig, 'bytes': sizes, 'cpu_seconds': times}, {'kind': 'scaling'})
+            return
+
+
+def _raw_message(fields_bytes, body, little=True, mtype=4):
+    """A message assembled by hand: `fields_bytes` is the header-field array content (entries already 8-aligned relative
+    to offset 16)."""
+    e = '<' if little else '>'
+    hdr = bytes([ord('l') if little else ord('B'), mtype, 0, 1]) + struct.pack(e + 'II', len(body), 7) + \
+        struct.pack(e + 'I', len(fields_bytes)) + fields_bytes
+    hdr += b'\0' * ((8 - len(hdr) % 8) % 8)
+    return hdr + body
+
+
+def _field(code, vsig, payload, at):
+    """One a(yv) entry placed at offset `at` (relative to the array start, which is 8-aligned): pad to 8, code byte,
+    variant signature, then the caller's payload bytes (already padded by the caller for its own alignment)."""
+    pad = b'\0' * ((8 - at % 8) % 8)
+    return pad + bytes([code, len(vsig)]) + vsig.encode() + b'\0' + payload
+
+
+def _string_value(txt, little, at):
+    """A STRING aligned to 4 at absolute-in-array offset `at`."""
+    e = '<' if little else '>'
+    b = txt.encode('latin-1')
+    return b'\0' * ((4 - at % 4) % 4) + struct.pack(e + 'I', len(b)) + b + b'\0'
+
+
+def scaling_families():
+    """k -> (name, raw message).  Each family grows in length about linearly with k."""
+    def base_fields(little):
+        out = b''
+        for code, vs, txt in ((1, 'o', '/a'), (2, 's', 'a.b'), (3, 's', 'M')):
+            ent = bytes([code, 1]) + vs.encode() + b'\0'
+            at = len(out) + (8 - len(out) % 8) % 8 + len(ent)
+            out += _field(code, vs, _string_value(txt, little, at), len(out))
+        return out
+
+    def sig_as(vtype, sig, little):
+        f = base_fields(little)
+        ent_at = len(f) + (8 - len(f) % 8) % 8 + 2 + len(vtype) + 1
+        if vtype == 's':
+            return f + _field(8, 's', _string_value(sig, little, ent_at), len(f))
+        return f + _field(8, 'g', bytes([len(sig)]) + sig.encode() + b'\0', len(f))
+
+    def fam_struct_members(k, little=True):
+        # header field 8 (SIGNATURE) carried as a STRING: a(y()()...()) with k empty members, over k elements
+        e = '<' if little else '>'
+        sig = 'a(y' + '()' * k + ')'
+        body = struct.pack(e + 'I', 8 * k) + b'\0' * 4 + (b'\x01' + b'\0' * 7) * k
+        return _raw_message(sig_as('s', sig, little), body, little)
+
+    def fam_dict_members(k, little=True):
+        e = '<' if little else '>'
+        sig = 'a{y' + '()' * k + '}'
+        body = struct.pack(e + 'I', 8 * k) + b'\0' * 4 + (b'\x01' + b'\0' * 7) * k
+        return _raw_message(sig_as('s', sig, little), body, little)
+
+    def fam_flat_long_signature(k, little=True):
+        return _raw_message(sig_as('s', 'y' * (8 * k), little), b'\x05' * (8 * k), little)
+
+    def fam_many_arrays(k, little=True):
+        # ay ay ay ... : 2k signature characters, k empty arrays of 4 bytes each
+        return _raw_message(sig_as('s', 'ay' * (2 * k), little), b'\0' * (8 * k), little)
+
+    def fam_unknown_fields(k, little=True):
+        f = base_fields(little)
+        for _ in range(k):
+            f += _field(200, 'y', b'\x07', len(f))
+        return _raw_message(f, b'', little)
+
+    def fam_legal_signature(k, little=True):
+        # the longest legal SIGNATURE (typed g, 255 characters) over a growing body: the constant is large, the growth linear
+        e = '<' if little else '>'
+        sig = 'a(y' + '()' * 125 + ')'
+        body = struct.pack(e + 'I', 8 * k) + b'\0' * 4 + (b'\x01' + b'\0' * 7) * k
+        return _raw_message(sig_as('g', sig, little), body, little)
+
+    return [('signature-as-string/struct-members', fam_struct_members), ('signature-as-string/dict-members', fam_dict_members),
+            ('signature-as-string/flat', fam_flat_long_signature), ('signature-as-string/many-arrays', fam_many_arrays),
+            ('unknown-header-fields', fam_unknown_fields), ('legal-255-signature', fam_legal_signature)]
+
+
+def step_scaling_probe(ctx):
+    """Work proportional to the length, in interpreter steps (deterministic, so no timing noise): every family of hostile
+    messages is decoded at two sizes a factor 4 apart; steps per byte may not grow by more than a factor 2 (linear work:
+    1.0; quadratic: 4).  A decode that ends in an exception is as good as one that ends in a message."""
+    for name, fam in scaling_families():
+        for little in (True, False):
+            per_byte = []
+            sizes = []
+            stepsl = []
+            for k in (300, 1200):
+                raw = fam(k, little)
+                out, val, n = METER.run(40000000, MSG.parseMessage, raw, [])
+                sizes.append(len(raw))
+                stepsl.append(n)
+                per_byte.append(n / float(len(raw)))
+                ctx.count('evaluations')
+                ctx.distinct('scaling_outcomes', (name, out if out in ('ok', 'budget') else 'exception'))
+            ctx.count('step_scaling_probes')
+            growth = per_byte[1] / max(per_byte[0], 1e-9)
+            ctx.note('step_scaling_' + name + ('' if little else '/big-endian'),
+                     {'bytes': sizes, 'steps': stepsl, 'steps_per_byte_growth': round(growth, 2)})
+            if growth > 2.0 and stepsl[1] > 20000:
+                case = {'kind': 'step-scaling', 'family': name, 'little': little}
+                ctx.report(classify_scaling(name), 'decoding the %s family: %d bytes take %d steps, %d bytes take %d steps - steps '
+                           'per byte grow by a factor %.1f for %.1f times the length' % (
+                               name, sizes[0], stepsl[0], sizes[1], stepsl[1], growth, sizes[1] / float(sizes[0])),
+                           {'family': name, 'bytes': sizes, 'steps': stepsl, 'little': little}, case)
+                break
+
+
+def classify_scaling(name):
+    if name.startswith('signature-as-string'):
+        return 'signature-header-unbounded'
+    return 'superlinear-work'
+
+
+def history_independence(ctx, rng):
+    """The work one message costs does not depend on how many messages the process has seen before.  A fixed set of probe
+    messages is decoded and passed on the way the built-in bus does (parse, stamp the sender, write out again with the
+    body as received); then a history of several hundred other legal messages - every type, every header field, UNIX_FDS
+    counts included - goes the same way; then the probes again.  Steps (deterministic) and output bytes must be the same."""
+    def pass_on(raw):
+        m = MSG.parseMessage(raw, [])
+        m.sender = ':1.77'
+        m._marshal(False, rawBody=m.rawBody)
+        return m.rawMessage
+
+    def mk(mtype, serial, extra, sig, body, little):
+        f = {}
+        if mtype in (1, 4):
+            f.update(path='/a/b', member='M', interface='a.b')
+        if mtype in (2, 3):
+            f['reply_serial'] = 9
+        if mtype == 3:
+            f['error_name'] = 'a.b.E'
+        f.update(extra)
+        return RM.build(mtype, serial, f, sig, body, little)
+
+    probes = []
+    for mtype in (1, 2, 3, 4):
+        for extra in ({}, {'unix_fds': 0}, {'unix_fds': 2}, {'destination': 'x.y', 'sender': ':1.5'}):
+            for little in (True, False):
+                probes.append(mk(mtype, 40 + len(probes), extra, 'su', ['probe', 7], little))
+
+    def measure():
+        out = []
+        for raw in probes:
+            res, val, n = METER.run(5000000, pass_on, raw)
+            out.append((n, val if res == 'ok' else repr(val)))
+        return out
+
+    before = measure()
+    history = 0
+    for k in range(300):
+        mtype = 1 + k % 4
+        extra = [{}, {'unix_fds': 0}, {'unix_fds': 1}, {'unix_fds': 3}, {'destination': 'q.r'}][k % 5]
+        sig, body = [('', []), ('s', ['h%d' % k]), ('as', [['a', 'b']]), ('a{sv}', [{}])][(k // 5) % 4]
+        try:
+            pass_on(mk(mtype, 1000 + k, extra, sig, body, k % 3 != 0))
+            history += 1
+        except Exception:
+            ctx.count('history_messages_refused')
+    after = measure()
+    ctx.count('evaluations', 2 * len(probes) + 300)
+    ctx.count('history_independence_probes', len(probes))
+    ctx.note('history_independence', {'probes': len(probes), 'history_messages_passed_on': history,
+                                      'steps_first_probe_before_after': [before[0][0], after[0][0]]})
+    for i, ((n0, o0), (n1, o1)) in enumerate(zip(before, after)):
+        case = {'kind': 'history', 'probe': i}
+        w = {'probe_hex': probes[i].hex(), 'steps_before': n0, 'steps_after': n1, 'history_messages': history,
+             'out_before': o0 if isinstance(o0, str) else o0.hex(), 'out_after': o1 if isinstance(o1, str) else o1.hex()}
+        if o0 != o1:
+            ctx.report('history-dependent-output', 'passing on one and the same %d-byte message gives %s before and %s after '
+                       '%d other messages went through the process' % (
+                           len(probes[i]), '%d bytes' % len(o0) if isinstance(o0, bytes) else o0,
+                           '%d bytes' % len(o1) if isinstance(o1, bytes) else o1, history), w, case)
+            return
+        if n1 > n0 * 1.25 + 20:
+            ctx.report('history-dependent-work', 'passing on one and the same message took %d steps before and %d steps after '
+                       '%d other messages went through the process' % (n0, n1, history), w, case)
             return
 
 
